@@ -354,7 +354,8 @@ def splitDollar : Bytes → Option (Bytes × Bytes)
   | [] => none
   | c :: t => if c == 36 then some ([], t) else (splitDollar t).map (fun x => (c :: x.1, x.2))
 
-/-- `replaceVariables`; `resolve = none` is a nil Resolver.  Fuel: the number of `$` + 1 (a resolver that answers
+/-- `replaceVariables`; `resolve = none` is a nil Resolver.  Fuel: three rounds per `$` (an answer may itself name a variable: chains of up to three hops are followed as the
+    Go loop does, which re-scans the substituted text; a resolver that answers
     with text containing `$` makes the Go loop run on; such resolvers are outside the property) -/
 def replaceVars (resolve : Option (Bytes → Bytes)) : Nat → Bytes → R Bytes
   | 0, s => if splitDollar s = none then .ok s else .panic
@@ -370,7 +371,7 @@ def replaceVars (resolve : Option (Bytes → Bytes)) : Nat → Bytes → R Bytes
         else replaceVars resolve fuel (before ++ f (varName 0 after).1 ++ (varName 0 after).2)
 
 def replaceVariables (resolve : Option (Bytes → Bytes)) (s : Bytes) : R Bytes :=
-  replaceVars resolve (s.count 36 + 1) s
+  replaceVars resolve (s.count 36 * 3 + 2 + 1) s
 
 /-! ### evaluateOperand with symbolic operators: a binary operator yields "(l op r)", a unary one "(op x)",
     a function `name[arg;arg]` after evaluating each argument with a fresh evaluator -/
@@ -510,15 +511,20 @@ def evaluateWith (prs : St → Bytes → R St) (ops : List Op) (fns : List Bytes
           | .ok none => .err
           | .ok (some v) => .ok v)
 
+/-- the nesting budget the driver gives `Evaluate` (the Go code has none): enough for every resolver whose answers
+    are at most 32 bytes longer than `$name` (`C09.evaluate_no_panic_driver`); for any other `$`-free resolver some
+    finite budget suffices (`C09.evaluate_no_panic`) -/
+def driverBudget (s : Bytes) : Nat := s.length * 33 + 1
+
 /-- `Evaluate` on the evaluator the driver keeps from line to line -/
 def evaluateReuse (ops : List Op) (fns : List Bytes) (resolve : Option (Bytes → Bytes)) (old : St) (s : Bytes) :
     St × R Bytes :=
-  evaluateWith (parseOn ops fns) ops fns resolve s.length old s
+  evaluateWith (parseOn ops fns) ops fns resolve (driverBudget s) old s
 
 /-- the variant without the reset -/
 def evaluateNoReset (ops : List Op) (fns : List Bytes) (resolve : Option (Bytes → Bytes)) (old : St) (s : Bytes) :
     St × R Bytes :=
-  evaluateWith (parseOnNoReset ops fns) ops fns resolve s.length old s
+  evaluateWith (parseOnNoReset ops fns) ops fns resolve (driverBudget s) old s
 
 /-- the tree with the variables of operands and argument texts substituted (what the value pass walks) -/
 def substNode (rv : Bytes → R Bytes) : Node → R Node
